@@ -169,6 +169,21 @@ func runC09(c *core.Ctx) {
 			sizeClass = 2
 			sizes = []int{2047, 2048, 2049, 3000, 5000}
 		}
+		// close-in-flight trials: Channel.Close arrives while streamed messages are being sent by a slow transport; whatever
+		// was accepted before must still go out as whole messages, in one piece each (only the very last one may be cut short)
+		closeInFlight := idx%8 == 6
+		if closeInFlight {
+			pipe = "none"
+			carrier = []string{"io.Reader", "io.MultiReader", "*bytes.Reader", "*bytes.Buffer"}[rng.Intn(4)]
+			carrier2 = []string{carrier, "[]byte", "[][]byte"}[rng.Intn(3)]
+			sizeClass = 2
+			sizes = []int{2047, 2048, 2049, 3000, 5000}
+			if mode == mon.NonBlock {
+				mode = mon.Blocking
+			}
+			q = []int{4, 8, 64}[rng.Intn(3)]
+			per = 10 + rng.Intn(20)
+		}
 		procs := []int{1, 1, 2, 4, 8, 16}[rng.Intn(6)]
 		runtime.GOMAXPROCS(procs)
 
@@ -187,6 +202,10 @@ func runC09(c *core.Ctx) {
 		if rng.Intn(2) == 0 {
 			// a sender that lags behind the writers: queued chunks wait in the queue / batch meanwhile
 			plan = append(plan, mon.Step{At: []string{"sBat", "sLoop", "x1", "tV0"}[rng.Intn(4)], Occ: 0, Kind: mon.Sleep, D: time.Duration(50+rng.Intn(300)) * time.Microsecond})
+		}
+		if closeInFlight {
+			plan = []mon.Step{{At: "tV0", Occ: 0, Kind: mon.Sleep, D: time.Duration(100+rng.Intn(400)) * time.Microsecond},
+				{At: "tW0", Occ: 0, Kind: mon.Sleep, D: time.Duration(50+rng.Intn(100)) * time.Microsecond}}
 		}
 		ro := mon.RigOpts{Mode: mode, Queue: q, Handlers: handlers, QuietTail: true, Plan: plan}
 		if idx%5 == 4 {
@@ -235,6 +254,28 @@ func runC09(c *core.Ctx) {
 				}
 			}(w)
 		}
+		var cg sync.WaitGroup
+		if closeInFlight {
+			after := 1 + rng.Intn(6)
+			wdone := make(chan struct{})
+			go func() { wg.Wait(); close(wdone) }()
+			cg.Add(1)
+			go func() {
+				defer cg.Done()
+				// once a few transport calls have happened, with more traffic queued behind the slow one in progress
+				// (or, at the latest, when the writers are through)
+				for rig.S.Count("tV0")+rig.S.Count("tW0") < after {
+					select {
+					case <-wdone:
+					case <-time.After(50 * time.Microsecond):
+						continue
+					}
+					break
+				}
+				rig.Ch.Close(fmt.Errorf("c09 close in flight"))
+			}()
+			c.Count("trials_close_in_flight", 1)
+		}
 		done := make(chan struct{})
 		go func() { wg.Wait(); close(done) }()
 		select {
@@ -244,15 +285,20 @@ func runC09(c *core.Ctx) {
 			rig.Dispose()
 			continue
 		}
-		rig.Ex.WaitOutstanding(1, 10*time.Second)
+		if closeInFlight {
+			cg.Wait()
+			rig.Ex.WaitOutstanding(0, 10*time.Second)
+		} else {
+			rig.Ex.WaitOutstanding(1, 10*time.Second)
+		}
 		ops, wire := rig.T.Snapshot()
-		c09Judge(c, id, pipe, carrier+mixSuffix(carrier, carrier2), mode, W, sizeClass, useCtx, ops, wire)
+		c09Judge(c, id, pipe, carrier+mixSuffix(carrier, carrier2), mode, W, sizeClass, useCtx, ops, wire, closeInFlight)
 		rig.Dispose()
 	}
 	runtime.GOMAXPROCS(runtime.NumCPU())
 }
 
-func c09Judge(c *core.Ctx, id, pipe, carrier string, mode mon.Mode, W, sizeClass int, useCtx bool, ops []mon.Op, wire []byte) {
+func c09Judge(c *core.Ctx, id, pipe, carrier string, mode mon.Mode, W, sizeClass int, useCtx bool, ops []mon.Op, wire []byte, closed bool) {
 	// boundaries between low-level writes
 	bound := map[int]bool{}
 	for _, o := range ops {
@@ -397,6 +443,11 @@ func c09Judge(c *core.Ctx, id, pipe, carrier string, mode mon.Mode, W, sizeClass
 			}
 		}
 		atBoundary = atBoundary || tearPos == len(wire)
+		if closed && tearPos == len(wire) {
+			// the channel was closed while this message was being streamed: its remaining chunks were refused, nothing follows it
+			c.Count("last_message_cut_short_by_close", 1)
+			return
+		}
 	} else {
 		// header itself unreadable: fall back to "some low-level write starts within the next bytes"
 		for b := range bound {
